@@ -133,7 +133,7 @@ def run(ctx, monitors=MONITORS):
     total = len(walks)
     if q:
         rng.shuffle(walks)
-        walks = walks[:30]
+        walks = walks[:40]
     schemes = ["", "bls-unchained-g1-rfc9380", "pedersen-bls-unchained", "bls-bn254-unchained-on-g1"]
     scripts = []
     for k, (init, steps) in enumerate(walks):
